@@ -107,12 +107,25 @@ Proof.
   exact (objects_history_admin_lemma _ auth ops s q tf_import_admin_last_lemma H d Had).
 Qed.
 
-Lemma table_objects_history_binding : forall auth ops s,
-  (forall op, In op ops -> signer auth op <> Some auth) ->
-  forall e d, e2d s e = Some d -> e2d (orun Gen.C03.code_shape ops s) e = Some d.
+Lemma table_objects_history_live_binding : forall auth ops s q d e,
+  bindings_consistent s ->
+  (forall op, In op ops -> signer auth op <> Some auth /\ signer auth op <> Some q) ->
+  admin_of s d = Some q -> d2e s d = Some e ->
+  admin_of (orun Gen.C03.code_shape ops s) d = Some q /\ d2e (orun Gen.C03.code_shape ops s) d = Some e /\
+  e2d (orun Gen.C03.code_shape ops s) e = Some d.
 Proof.
-  intros auth ops s H e d Hb.
-  exact (objects_history_binding_lemma _ auth ops s bind_guard_on_written_index_lemma H e d Hb).
+  intros auth ops s q d e HJ H Had Hb.
+  exact (objects_history_live_binding_lemma _ auth ops s q d e bind_guard_on_written_index_lemma tf_import_admin_last_lemma HJ H Had Hb).
+Qed.
+
+Lemma table_objects_history_native_binding : forall auth ops s d e,
+  bindings_consistent s ->
+  (forall op, In op ops -> signer auth op <> Some auth) ->
+  fst d = 0 -> admin_of s d = None -> d2e s d = Some e ->
+  d2e (orun Gen.C03.code_shape ops s) d = Some e /\ e2d (orun Gen.C03.code_shape ops s) e = Some d.
+Proof.
+  intros auth ops s d e HJ H Hn Had Hb.
+  exact (objects_history_native_binding_lemma _ auth ops s d e bind_guard_on_written_index_lemma tf_import_admin_last_lemma HJ H Hn Had Hb).
 Qed.
 
 Lemma table_objects_history_pending : forall auth ops s p,
